@@ -52,13 +52,16 @@ def d4_blocks(plan):
         th = {i: m.theta.get(i, ("ty", ("tp", i))) for i in range(f.nparams)}
         from ..gen_pat import subst as _subst
         clauses = m.custom_bounds if m.custom_bounds is not None else [(_subst(k.bounded, th),) for k in f.keys]
-        if not any(c[0][0] == "tp" for c in clauses):
+        own = {c[0][1] for c in clauses if c[0][0] == "tp"}
+        if not own:
             continue
+        from ..gen_pat import params_of as _params_of
         for i, (hi, ti) in enumerate(hdrs):
             if i == j or hi == hdrs[j][0]:
                 continue
             sub = {}
-            if _match(hi, hdrs[j][0], sub) and any(v[0] != "tp" for v in sub.values()):
+            # the bounded parameter lies strictly inside the value of one of the general header's parameters
+            if _match(hi, hdrs[j][0], sub) and any(v[0] != "tp" and (own & {x[1] for x in _params_of(v)}) for v in sub.values()):
                 out.add(j)
     return out
 
@@ -113,6 +116,14 @@ def run(prop, tier, seed, replay, clauses, n_quick, n_thorough, rule, gen_kw=Non
     n = n_quick if tier == "quick" else n_thorough
     plans = [g.basic(**(gen_kw or {})) for _ in range(n)]
     plans += [g.lattice() for _ in range(n // 3)]
+    plans += [g.unsized_plan(d7=False) for _ in range(n // 3)]      # ?Sized relaxations, wildcard rows
+    # adversarial presentation of a third of the plans: parameters spelled like reserved canonical names in permuted
+    # order / like traits, items and associated types; bounds moved to the where-clause; declaration order shuffled
+    from . import variants as V
+    for i in range(0, len(plans), 3):
+        q = V.rename_variant(plans[i], rng, pool=V.ADVERSARIAL_NAMES[0] if rng.random() < 0.6 else None)
+        q = V.placement_variant(V.declorder_variant(q, rng), rng)
+        plans[i] = q
     evs = PC.evaluate(so, plans)
     known = {f["id"] for f in C.findings_for(prop)}
     shape_cases = []
@@ -140,6 +151,18 @@ def run(prop, tier, seed, replay, clauses, n_quick, n_thorough, rule, gen_kw=Non
                 blocks = set(f.get("applicable_blocks", [])) | ({f["block"]} if "block" in f else set())
                 if blocks & d4:
                     rep.known("F-D4")
+                else:
+                    kept.append(f)
+            fails = kept
+        if "F-D7" in known and len(plan.families) == 1 and any(m.unsized for m in plan.families[0].members):
+            # D7: an unsized probe of a block that relaxed a parameter no (surviving) key bounds
+            from .c15 import relaxed_non_key_params
+            nonkey = relaxed_non_key_params(plan)
+            kept = []
+            for f in fails:
+                if f.get("clause", "").startswith("implemented iff") and not f.get("implemented") and \
+                        any(mi == a for a in f.get("applicable_blocks", []) for (mi, p_) in nonkey):
+                    rep.known("F-D7")
                 else:
                     kept.append(f)
             fails = kept
